@@ -127,8 +127,11 @@ def run(module, cfg=None, workers=16, dump=False, env=None, timeout=1800, covera
                  r'java\.lang\.\w*(Error|Exception)', out) and res.violated is None:
         bad = 'TLC error'
     if bad:
-        tail = '\n'.join(out.splitlines()[-40:])
-        raise TlcError(f'{bad} on {module}: \n{tail}')
+        lines = out.splitlines()
+        idx = [i for i, l in enumerate(lines) if 'rror' in l and not l.startswith('  |')]
+        head = '\n'.join(l for i in idx[:3] for l in lines[i:i + 12] if not l.startswith('  |'))
+        tail = '\n'.join(l for l in lines[-8:])
+        raise TlcError(f'{bad} on {module}: \n{head}\n...\n{tail}')
     return res
 
 
